@@ -1562,6 +1562,9 @@ func update(v any, path []any, n any, a allocator) (any, error) {
 	if len(path) == 0 {
 		return n, nil
 	}
+	if vs, ok := v.([]any); ok && vs == nil {
+		v = []any{} // a nil slice is an empty array, not null
+	}
 	switch p := path[0].(type) {
 	case string:
 		switch v := v.(type) {
